@@ -496,6 +496,83 @@ fn lifecycle_cells(t: &mut Tally<'_>) {
     cell("Error::source lending a derived mock", got, "Some(true) Ok(())");
 }
 
+
+// ----------------------------------------------------- scripts written as quantified clause chains
+
+/// The script on a required method is not an answer closure here but what a user would write: a
+/// chain of quantified responses. Driven through upstream provided methods, the results and the
+/// number of required-method calls equal those of a plain struct replaying the same script.
+fn clause_script_cells(t: &mut Tally<'_>) {
+    use embedded_hal::delay::DelayNs;
+    use unimock::mock::embedded_hal_1::delay::DelayNsMock;
+    use unimock::mock::std::io::ReadMock;
+    let mut cell = |name: &str, got: Result<String, String>, want: String| {
+        t.ctx.tick();
+        t.stats.add("traces_validated_against_impl", 1);
+        t.stats.add("transitions", 1);
+        t.stats.add("clause_script_cells", 1);
+        if got.as_ref() != Ok(&want) {
+            t.ctx.violation(
+                &format!("clause-script:{name}"),
+                &format!("{name}: a plain implementation gives {want:?}, the mock gave {got:?}"),
+                J::obj().set("what", name),
+            );
+        }
+    };
+    // Read::read_exact over `k` interrupted reads followed by one-byte reads, ordered and unordered
+    for k in 0..4usize {
+        for ordered in [true, false] {
+            let mut sc = vec![Ans::Interrupted; k];
+            sc.push(Ans::Bytes(vec![7]));
+            sc.push(Ans::Bytes(vec![8]));
+            let sh = script(&sc);
+            let mut p = PlainRead(sh.clone());
+            let mut buf = [0u8; 2];
+            let res = p.read_exact(&mut buf);
+            let want = format!("{} {buf:?} calls={}", show(&res), log_of(&sh).len());
+            let got = catch(|| {
+                fn interrupted(_: &mut Unimock, _: &mut [u8]) -> io::Result<usize> {
+                    Err(io::Error::new(io::ErrorKind::Interrupted, "interrupted"))
+                }
+                fn one(_: &mut Unimock, b: &mut [u8]) -> io::Result<usize> {
+                    b[0] = 7;
+                    Ok(1)
+                }
+                fn two(_: &mut Unimock, b: &mut [u8]) -> io::Result<usize> {
+                    b[0] = 8;
+                    Ok(1)
+                }
+                let mut u = if ordered {
+                    Unimock::new(ReadMock::read.next_call(matching!(_)).answers(&interrupted).n_times(k).then().answers(&one).once().then().answers(&two))
+                } else {
+                    Unimock::new(ReadMock::read.some_call(matching!(_)).answers(&interrupted).n_times(k).then().answers(&one).once().then().answers(&two).at_least_times(1))
+                };
+                let mut buf = [0u8; 2];
+                let res = u.read_exact(&mut buf);
+                let calls = unimock::verif::snapshot(&u).methods.iter().map(|m| m.patterns.iter().map(|p| p.count).sum::<usize>()).sum::<usize>();
+                let verdict = catch(move || drop(u));
+                format!("{} {buf:?} calls={calls} {verdict:?}", show(&res))
+            });
+            cell(&format!("Read::read_exact/{k} interrupts/{}", if ordered { "next_call chain" } else { "some_call chain" }), got, format!("{want} Ok(())"));
+        }
+    }
+    // DelayNs::delay_ms over a delay_ns that is configured once with a value and a lower bound
+    for ms in [1u32, 4_294, 10_000] {
+        let sh = script(&[]);
+        let mut p = hal::plain_delay(&sh);
+        p.delay_ms(ms);
+        let want = format!("calls={}", log_of(&sh).len());
+        let got = catch(|| {
+            let mut u = Unimock::new(DelayNsMock::delay_ns.some_call(matching!(_)).returns(()).at_least_times(1));
+            u.delay_ms(ms);
+            let calls = unimock::verif::snapshot(&u).methods.iter().map(|m| m.patterns.iter().map(|p| p.count).sum::<usize>()).sum::<usize>();
+            let verdict = catch(move || drop(u));
+            format!("calls={calls} {verdict:?}")
+        });
+        cell(&format!("DelayNs::delay_ms({ms})/some_call returns at_least_times(1)"), got, format!("{want} Ok(())"));
+    }
+}
+
 // ------------------------------------------------------------------------------------- driver
 
 pub struct Tally<'a> {
@@ -860,6 +937,7 @@ fn main() {
     }
     mocked_provided_cells(&mut t);
     lifecycle_cells(&mut t);
+    clause_script_cells(&mut t);
     // long scripts: thousands of lent chunks, released on a small stack
     for (n, stack) in [(2_000usize, 64 * 1024usize), (12_000, 256 * 1024)] {
         t.ctx.tick();
